@@ -88,3 +88,66 @@ func c15RunCommand(c *Ctx) {
 		c.R.Nontrivial("run|" + st.name)
 	}
 }
+
+// c15Triangle: d depends on [x, y] and y depends on x; everything is cached, then the blobs of x and y are lost, their
+// outputs removed from the workspace and d's input edited. Under load_outputs=minimal d executes and needs both
+// dependencies: each of them is re-run at most once (x is reached twice: directly and through y), the build succeeds
+// and d's output equals the one of mode all.
+func c15Triangle(c *Ctx) {
+	grog, err := vc.BuildGrog("grog", nil)
+	if err != nil {
+		c.R.BrokenCheck("%v", err)
+		return
+	}
+	base, cleanup := scratchBase(c, "c15tri")
+	defer cleanup()
+	mk := func(v string) *hist.Source {
+		s := &hist.Source{Files: map[string]hist.File{"t/x.in": {Content: "x1"}, "t/y.in": {Content: "y1"}, "t/d.in": {Content: v}}}
+		s.Targets = append(s.Targets,
+			hist.Target{Pkg: "t", Name: "x", Inputs: []string{"x.in"}, Outputs: []string{"x.out"}, Command: traceStart + "\ncat x.in > x.out"},
+			hist.Target{Pkg: "t", Name: "y", Deps: []string{":x"}, Inputs: []string{"y.in"}, Outputs: []string{"y.out"}, Command: traceStart + "\ncat x.out y.in > y.out"},
+			hist.Target{Pkg: "t", Name: "d", Deps: []string{":x", ":y"}, Inputs: []string{"d.in"}, Outputs: []string{"d.out"}, Command: traceStart + "\ncat x.out y.out d.in > d.out"})
+		return s
+	}
+	results := map[string]string{}
+	for _, mode := range []string{"all", "minimal"} {
+		box, err := hist.NewBox(base)
+		if err != nil {
+			c.R.BrokenCheck("%v", err)
+			return
+		}
+		s1, s2 := mk("d1"), mk("d2")
+		s1.Materialize(box.WS(), nil)
+		args := []string{"build", "//...", "--load-outputs=" + mode}
+		if r := box.Run(grog, hist.RunOpts{Args: args}); r.Exit != 0 {
+			c.R.BrokenCheck("triangle: preparation build failed: %s", tail(r.Output, 300))
+			box.Remove()
+			return
+		}
+		os.RemoveAll(filepath.Join(box.CacheDir(), "cas"))
+		os.Remove(filepath.Join(box.WS(), "t/x.out"))
+		os.Remove(filepath.Join(box.WS(), "t/y.out"))
+		s2.Materialize(box.WS(), s1)
+		rr := box.Run(grog, hist.RunOpts{Args: args, Ceiling: 60e9})
+		replay := map[string]any{"history": []string{"build", "lose every blob, delete x.out and y.out, edit d's input", "build"}, "load_outputs": mode, "executed": rr.Started(), "grog_output_tail": tail(rr.Output, 600)}
+		counts := map[string]int{}
+		for _, l := range rr.Started() {
+			counts[l]++
+		}
+		for l, n := range counts {
+			if n > 1 {
+				c.R.Violate(vc.Violation{Sig: "C03:target-executed-twice-in-one-build:" + l, Detail: fmt.Sprintf("triangle (load_outputs=%s): %s was executed %d times in one build; trace %v", mode, l, n, rr.Trace), Replay: replay})
+				c.R.Violate(vc.Violation{Sig: "C15:minimal-mode:target-executed-twice-in-one-build:" + l, Detail: fmt.Sprintf("triangle (load_outputs=%s): %s was executed %d times in one build; trace %v", mode, l, n, rr.Trace), Replay: replay})
+			}
+		}
+		b, _ := os.ReadFile(filepath.Join(box.WS(), "t/d.out"))
+		results[mode] = fmt.Sprintf("exit=%d d.out=%q", rr.Exit, b)
+		c.R.AddCounts(2, 1, 2, 2)
+		c.R.Nontrivial("triangle|" + mode)
+		box.Remove()
+	}
+	if results["all"] != results["minimal"] {
+		c.R.Violate(vc.Violation{Sig: "C15:lock-step:minimal-differs-from-all:triangle-with-lost-blobs", Detail: fmt.Sprintf("triangle d -> [x, y], y -> x with the blobs of x and y lost: mode all gives %s, minimal %s", results["all"], results["minimal"]), Replay: results})
+	}
+	c.R.Outcome("triangle|" + results["minimal"])
+}
